@@ -475,6 +475,17 @@ fn inject(class: &str, base: &[u8], rng: &mut Rng) -> Option<Vec<u8>> {
             blk.push(0xff);
             v.splice(r.0..r.1, blk);
         }
+        "btsd-reserved" => { // data that starts with an ill-formed head: additional-information values 28..31 of major type 0,
+            // followed by exactly the number of bytes a "1 << (ai - 24)" reading would expect (16, 32, 64, 128)
+            if primary { return None; }
+            let bt = cborx::read_uint(base, ch[0])?;
+            let k = rng.below(4) as usize;
+            let mut item = vec![0x1cu8 + k as u8]; item.extend(std::iter::repeat(0u8).take((16usize << k) - 1)); item.push(1);
+            let b: Vec<u8> = match bt { 7 => item, 10 => { let mut v = vec![0x82]; if rng.chance(1, 2) { v.extend_from_slice(&item); v.push(0x01); } else { v.extend_from_slice(&[0x18, 0x20]); v.extend_from_slice(&item); } v }
+                6 => { let mut v = vec![0x82]; v.extend_from_slice(&item); v.push(0x00); v }, _ => return None };
+            let mut f = cbor_head(2, b.len() as u64); f.extend_from_slice(&b);
+            v.splice(ch[4].0..ch[4].1, f);
+        }
         "btsd-trailing" => { // the required item, well formed, followed by further bytes inside the data byte string
             if primary { return None; }
             let bt = cborx::read_uint(base, ch[0])?;
@@ -513,7 +524,7 @@ fn inject(class: &str, base: &[u8], rng: &mut Rng) -> Option<Vec<u8>> {
     Some(v)
 }
 
-pub const FAULT_CLASSES: [&str; 22] = ["btsd-trailing", "ts-map", "indef-missing", "btsd-map", "btsd-retype", "missing-item", "extra-item", "ts-arity", "ipn-arity", "eid-extra", "eid-no-scheme", "scheme-unknown", "ipn-node0",
+pub const FAULT_CLASSES: [&str; 23] = ["btsd-reserved", "btsd-trailing", "ts-map", "indef-missing", "btsd-map", "btsd-retype", "missing-item", "extra-item", "ts-arity", "ipn-arity", "eid-extra", "eid-no-scheme", "scheme-unknown", "ipn-node0",
     "crc-length", "crc-presence", "uint-kind", "array-kind", "bstr-kind", "btsd", "no-break", "trailing-byte", "missing-item"];
 
 fn gen_c19(rng: &mut Rng, ctx: &mut Ctx, rep: &mut Report, emit: Emit) {
